@@ -368,7 +368,7 @@ Section Estimators.
     match l with [] => 0 | x :: t => if O.(oeqb) c x then 0 else S (position c t) end.
 
   (* The search structure a fitted estimator owns: the number of points, and for the cover tree the
-     tree itself (built by CoverTree::new; its construction is modelled in Build.v). *)
+     tree itself (built by CoverTree::new; the construction is not modelled — wf_root is evaluated on it). *)
   Inductive searcher := SLinear (n : nat) | SCover (n : nat) (root : ctree T).
 
   Definition searcher_find (dmax dinf : T) (s : searcher) (dq : nat -> T) (k : nat)
